@@ -303,6 +303,8 @@ pub struct HarnessResult {
     pub distinct_outcomes: usize,
     pub max_preemptions: usize,
     pub skipped_init: bool,
+    /// the per-harness run cap was hit before every schedule had been visited
+    pub capped: bool,
     pub violation: Option<(VInfo, Value)>,
     pub hist: [[u64; N_OUTCODES]; 7],
     pub sample: Option<Value>,
@@ -310,6 +312,9 @@ pub struct HarnessResult {
 
 /// Explore every schedule of one harness: passes with preemption bound 0, 1, 2 (ordering
 /// heuristic: a violation is found with as few preemptions as possible), then the unbounded DFS.
+/// Cap on the schedules executed per harness (set by main from the tier).
+pub static RUN_CAP: std::sync::atomic::AtomicU64 = std::sync::atomic::AtomicU64::new(200_000);
+
 pub fn explore_harness(fx: &Rc<Fixtures>, tbl: &Table, h: &Harness) -> HarnessResult {
     let mut res = HarnessResult {
         name: h.name.clone(),
@@ -320,6 +325,7 @@ pub fn explore_harness(fx: &Rc<Fixtures>, tbl: &Table, h: &Harness) -> HarnessRe
         distinct_outcomes: 0,
         max_preemptions: 0,
         skipped_init: false,
+        capped: false,
         violation: None,
         hist: [[0; N_OUTCODES]; 7],
         sample: None,
@@ -334,11 +340,22 @@ pub fn explore_harness(fx: &Rc<Fixtures>, tbl: &Table, h: &Harness) -> HarnessRe
     let mut violation: Option<(VInfo, Value)> = None;
     let mut sample: Option<Value> = None;
     let mut hist = [[0u64; N_OUTCODES]; 7];
+    // Per-harness cap on executed schedules: a change that multiplies the lock acquisitions of an operation (a store split into
+    // shards, a retry loop) multiplies the schedule space; the preemption-bounded passes (0, 1, 2) come first, so what is cut is
+    // the tail of the unbounded pass. On the unchanged tree the largest harness stays far below the cap (evidence: largest_harness).
+    let cap = RUN_CAP.load(Ordering::SeqCst);
+    let mut runs_total = 0u64;
+    let mut capped = false;
     for bound in [Some(0), Some(1), Some(2), None] {
         let stats = explore(
             || mk_run(fx, h),
             bound,
             |out, ctx| {
+                runs_total += 1;
+                if runs_total > cap {
+                    capped = true;
+                    return false;
+                }
                 let rec = finish_run(fx, tbl, h, out, ctx);
                 if out.deadlock {
                     violation = Some((
@@ -424,7 +441,7 @@ pub fn explore_harness(fx: &Rc<Fixtures>, tbl: &Table, h: &Harness) -> HarnessRe
         res.runs += stats.runs;
         res.steps += stats.steps;
         res.max_preemptions = res.max_preemptions.max(stats.max_preemptions);
-        if violation.is_some() {
+        if violation.is_some() || capped {
             break;
         }
         if bound.is_none() {
@@ -435,6 +452,10 @@ pub fn explore_harness(fx: &Rc<Fixtures>, tbl: &Table, h: &Harness) -> HarnessRe
     res.distinct_histories = verdicts.len();
     res.distinct_outcomes = outcomes.len();
     res.violation = violation;
+    res.capped = capped;
+    if capped {
+        res.schedules = runs_total;
+    }
     res.hist = hist;
     res.sample = sample;
     res
@@ -450,6 +471,7 @@ pub struct ConcResult {
     pub max_outcomes: usize,
     pub max_preemptions: usize,
     pub skipped_init: usize,
+    pub capped_harnesses: Vec<String>,
     pub lock_calls: usize,
     pub pair_kinds_with_conflict: usize,
     pub pair_kinds_total: usize,
@@ -502,6 +524,7 @@ pub fn run_conc_mem(tbl: &Table, hs: &[Harness]) -> ConcResult {
         max_outcomes: 0,
         max_preemptions: 0,
         skipped_init: 0,
+        capped_harnesses: Vec::new(),
         lock_calls,
         pair_kinds_with_conflict: 0,
         pair_kinds_total: 0,
@@ -527,6 +550,9 @@ pub fn run_conc_mem(tbl: &Table, hs: &[Harness]) -> ConcResult {
         cr.max_preemptions = cr.max_preemptions.max(r.max_preemptions);
         if r.skipped_init {
             cr.skipped_init += 1;
+        }
+        if r.capped {
+            cr.capped_harnesses.push(r.name.clone());
         }
         if r.schedules > cr.largest.1 {
             cr.largest = (r.name.clone(), r.schedules);
@@ -621,6 +647,8 @@ impl ConcResult {
             "op_kind_pairs_whose_outcome_depends_on_the_schedule": self.pair_kinds_with_conflict,
             "op_kind_pairs_never_conflicting(expected: load|load, and delete_expired|load because expired == absent for load)": self.pair_kinds_without_conflict,
             "harnesses_skipped_because_init_not_conformant": self.skipped_init,
+            "harnesses_cut_by_the_run_cap": self.capped_harnesses.iter().take(20).collect::<Vec<_>>(),
+            "run_cap_per_harness": RUN_CAP.load(Ordering::SeqCst),
             "LOCK_CALLS": self.lock_calls,
             "largest_harness": {"name": self.largest.0, "schedules": self.largest.1},
             "outcome_histogram(over all schedules)": self.hist.hist_json(),
